@@ -31,3 +31,6 @@ GHOST['MakeTime'] = {0: MT0}
 
 for _f in ('MakeSkipped', 'MakeRepeated'):
     GHOST[_f] = {0: lex("cs", "tr.civil_sec") + "\n" + lex("cs", "tr.prev_civil_sec")}
+
+# TimeLocal: remember what the inner MakeTime returned (ghost), so that the postcondition can relate the result to it
+HOOKS['TimeLocal'] = [(r'time_zone :: civil_lookup cl = MakeTime', 'gz_mt = cl;', 'after')]
